@@ -28,6 +28,12 @@
                         built from anything coarser (class names, ...) is not a recognised shape --
                         the built-ins that walk the Fortran type of a user-type argument write that
                         type's extents into the helper
+ * c03_builtin_templates : every built-in Fortran template of fortran.py (the `builtin_*` CallCode templates,
+                        UTIL_MACROS, the codegen_builtin_* functions and the type visitors / CallCode they use)
+                        and the table in function_registry.py that binds them to the built-ins, pinned by
+                        the sha256 of their `ast.unparse` text (Python 3.12 of /venv): the text of these
+                        templates is NOT modelled, so any edit has to break the tie until somebody looked at
+                        it and re-ran the differential check (then update BUILTIN_TEMPLATES below)
  * c03_ret_prefixes   : the three slots written by emit_inst_YieldState, in order
  fail-closed only: emit_inst_FailStep ends with goto 999; emit_return emits goto 999;
  lower_function emits label 999 right after lower_ast; process_ast's pass order.
@@ -209,6 +215,68 @@ def helper_key(repo):
     return ["inst.function_id", "arg_kinds"]
 
 
+BUILTIN_TEMPLATES = {
+    "AbsComputer": "bfd9228816570568",
+    "CallCode": "2d7c60bd68b66213",
+    "IsNaNComputer": "d8c74f4c3ec2d197",
+    "LenComputer": "3c5a363b061151f2",
+    "Norm2Computer": "2ac2c862a75f3738",
+    "TypeVisitorWithResult": "df71b0cfeb62e797",
+    "UTIL_MACROS": "ddaf6119a8e5a482",
+    "builtin_array": "87b746123d90af13",
+    "builtin_linear_solve": "59b03cc2fee728eb",
+    "builtin_matmul": "2baedd9519326f21",
+    "builtin_print": "9939b1d9da49dd95",
+    "builtin_svd": "dd1bce9533338fe7",
+    "builtin_transpose": "1e3d2af1b35375ef",
+    "codegen_builtin_elementwise_abs": "8332356096a78766",
+    "codegen_builtin_isnan": "82afc6f960c5de75",
+    "codegen_builtin_len": "6c9b6e106632765a",
+    "codegen_builtin_norm_2": "43c55f5da536923c",
+}
+BUILTIN_BINDINGS = [("Norm2", "codegen_builtin_norm_2"), ("ElementwiseAbs", "codegen_builtin_elementwise_abs"),
+                    ("Len", "codegen_builtin_len"), ("IsNaN", "codegen_builtin_isnan"), ("Array_", "builtin_array"),
+                    ("MatMul", "builtin_matmul"), ("Transpose", "builtin_transpose"),
+                    ("LinearSolve", "builtin_linear_solve"), ("SVD", "builtin_svd"), ("Print", "builtin_print")]
+
+
+def builtin_templates(repo):
+    import hashlib
+    tree = _parse(repo, "dagrt/codegen/fortran.py")
+    got = {}
+    for n in tree.body:
+        if isinstance(n, ast.Assign) and len(n.targets) == 1 and isinstance(n.targets[0], ast.Name) \
+                and (n.targets[0].id.startswith("builtin_") or n.targets[0].id == "UTIL_MACROS"):
+            got[n.targets[0].id] = hashlib.sha256(ast.unparse(n.value).encode()).hexdigest()[:16]
+        if isinstance(n, ast.FunctionDef) and n.name.startswith("codegen_builtin_"):
+            got[n.name] = hashlib.sha256(ast.unparse(n).encode()).hexdigest()[:16]
+        if isinstance(n, ast.ClassDef) and n.name in ("Norm2Computer", "LenComputer", "AbsComputer", "IsNaNComputer",
+                                                      "TypeVisitorWithResult", "CallCode"):
+            got[n.name] = hashlib.sha256(ast.unparse(n).encode()).hexdigest()[:16]
+    if sorted(got) != sorted(BUILTIN_TEMPLATES):
+        raise ShapeError("fortran.py: set of built-in templates changed: %r" %
+                         sorted(set(got) ^ set(BUILTIN_TEMPLATES)))
+    changed = sorted(k for k in got if got[k] != BUILTIN_TEMPLATES[k])
+    if changed:
+        raise ShapeError("fortran.py: built-in Fortran template(s) edited (text is not modelled; pinned by hash): %s"
+                         % ", ".join("%s now %s" % (k, got[k]) for k in changed))
+    reg = _parse(repo, "dagrt/function_registry.py")
+    mk = [n for n in reg.body if isinstance(n, ast.FunctionDef) and n.name == "_make_bfr"]
+    if len(mk) != 1:
+        raise ShapeError("function_registry.py: _make_bfr not found")
+    binds = []
+    for n in ast.walk(mk[0]):
+        if isinstance(n, ast.Call) and _src(n.func) == "bfr.register_codegen" and len(n.args) == 3 \
+                and isinstance(n.args[1], ast.Constant) and n.args[1].value == "fortran":
+            a0, a2 = _src(n.args[0]), _src(n.args[2])
+            if not a0.endswith(".identifier") or not a2.startswith("f."):
+                raise ShapeError("function_registry.py _make_bfr: unrecognised Fortran registration %r" % _src(n))
+            binds.append((a0[:-len(".identifier")], a2[2:]))
+    if binds != BUILTIN_BINDINGS:
+        raise ShapeError("function_registry.py _make_bfr: Fortran templates bound differently: %r" % binds)
+    return sorted(got.items())
+
+
 def facts(repo):
     tree = _parse(repo, "dagrt/codegen/fortran.py")
     cg = _find_class(tree, "CodeGenerator")
@@ -317,7 +385,7 @@ def facts(repo):
         ne = True
     else:
         raise ShapeError("expressions.py FortranExpressionMapper.map_comparison: unrecognised body %r" % _body(mc[0]))
-    return dict(ne=ne, cond=cond, ordered=ordered, go=guard_outside(repo), prec=logical_precedences(repo), hkey=helper_key(repo), m1=m1, sw=sw, nf=nf, slots=slots, passes=passes)
+    return dict(ne=ne, cond=cond, ordered=ordered, go=guard_outside(repo), prec=logical_precedences(repo), hkey=helper_key(repo), templates=builtin_templates(repo), m1=m1, sw=sw, nf=nf, slots=slots, passes=passes)
 
 
 def generate(repo):
@@ -341,6 +409,9 @@ def generate(repo):
         out.append("Definition c03_prec_%s : nat := %d." % (nm, z))
     out.append("(* fortran.py emit_inst_AssignFunctionCall / finish_emit: key of the helper-subroutine cache *)")
     out.append("Definition c03_helper_key : list string := %s." % coq_string_list(f["hkey"]))
+    out.append("(* fortran.py built-in templates, pinned by hash (text not modelled) *)")
+    out.append("Definition c03_builtin_templates : list (string * string) := [%s]."
+               % "; ".join('("%s", "%s")' % kv for kv in f["templates"]))
     out.append("Definition c03_ret_prefixes : list string := %s." % coq_string_list(f["slots"]))
     out.append("Definition c03_passes : list string := %s." % coq_string_list(f["passes"]))
     return "\n".join(out) + "\n"
